@@ -138,6 +138,7 @@ PROPS = {
     "C06": dict(
         pkg="c06",
         variants=[[], ["purego"], ["GOARCH=386"]],
+        every_target_must_build=True,  # the statement covers build targets: a target that stops compiling is a finding
         quick=T(8, 1.5, 900),
         thorough=T(16, 150, 3400, fuzz=[dict(name="FuzzGenHistories", count=20000)]),
         assumptions=[
@@ -179,6 +180,7 @@ PROPS = {
     "C20": dict(
         pkg="c20",
         variants=[[], ["purego"], ["GOARCH=386"]],
+        every_target_must_build=True,  # the statement covers build targets: a target that stops compiling is a finding
         quick=T(8, 2, 900),
         thorough=T(16, 300, 3400),
         assumptions=[
